@@ -56,6 +56,17 @@ func (b *c05Counter) Send(*Message) error { atomic.AddInt64(b.n, 1); return nil 
 func (b *c05Counter) GetAddress() string  { return b.addr }
 func (b *c05Counter) Close()              {}
 
+// c05Marker is a Backend double that only notes that it was the one chosen.
+type c05Marker struct {
+	addr string
+	id   int
+	last *int
+}
+
+func (b *c05Marker) Send(*Message) error { *b.last = b.id; return nil }
+func (b *c05Marker) GetAddress() string  { return b.addr }
+func (b *c05Marker) Close()              {}
+
 type c05Op struct {
 	kind byte // 'a' add, 'r' remove, 'd' dispatch
 	addr int
@@ -439,6 +450,66 @@ func TestVerifC05(t *testing.T) {
 		if run.WantSample() && i < 2 {
 			run.Sample(map[string]any{"kind": "random sequence", "ops": c05SeqString(ops[:40]) + " ...", "length": n})
 		}
+	}
+	// (b2) long epochs: hundreds of thousands (thorough: millions) of dispatches without a
+	// membership change, over pools of 1-7 members - the rotation must not drift however long
+	// it has been turning; after a removal and a re-add it goes on the same way
+	{
+		nlong := int64(ev.Pick(140000, 4500000))
+		var longDisp int64
+		for k := 1; k <= 7 && run.Violations() <= 5; k++ {
+			rb := NewRoundRobinBackend()
+			last := -1
+			hist := make([]int, 0, 8)
+			mk := func(i int) Backend { return &c05Marker{addr: fmt.Sprintf("10.0.1.%d:5060", i+1), id: i, last: &last} }
+			for i := 0; i < k; i++ {
+				rb.AddBackend(mk(i))
+			}
+			bad := ""
+			step := func(n int64, members int) {
+				hist = hist[:0]
+				for d := int64(0); d < n && bad == ""; d++ {
+					last = -1
+					var err error
+					if p := vfRecover("dispatch", func() { err = rb.Send(nil) }); p != "" {
+						bad = p
+						break
+					}
+					if err != nil || last < 0 {
+						bad = fmt.Sprintf("dispatch %d of the epoch failed or reached nobody (err=%v)", d, err)
+						break
+					}
+					if len(hist) < members {
+						for _, h := range hist {
+							if h == last {
+								bad = fmt.Sprintf("dispatch %d of the epoch: member %d received twice within %d consecutive dispatches", d, last, members)
+							}
+						}
+						hist = append(hist, last)
+					} else {
+						if hist[int(d)%members] != last {
+							bad = fmt.Sprintf("dispatch %d of the epoch went to member %d, the dispatch %d earlier went to member %d (k=%d)", d, last, members, hist[int(d)%members], members)
+						}
+					}
+					longDisp++
+				}
+			}
+			step(nlong, k)
+			if bad == "" && k > 1 {
+				// one member leaves and comes back: a new epoch of the same size
+				rb.RemoveBackend("10.0.1.1:5060")
+				step(int64(3*k), k-1)
+				if bad == "" {
+					rb.AddBackend(mk(0))
+					step(nlong/4, k)
+				}
+			}
+			if bad != "" {
+				run.Violation("rotation drifted in a long epoch", map[string]any{"members": k, "why": bad})
+			}
+			run.Eval(fmt.Sprintf("long-epoch-k%d", k))
+		}
+		run.Observe("dispatches_in_long_epochs", longDisp)
 	}
 	run.Observe("random_sequences", nrand)
 	run.Observe("epochs_with_full_window_total", fullEpochs)
